@@ -59,6 +59,48 @@ _INT_AFFINE = {"taxa_grp": (1000, 3000000000), "vrnt_chrgrp": (1000, 5000000000)
                "vrnt_phypos": (100000007, 3000000000)}
 
 
+# ---- dtype profile of one case (round 5).  `case["dt"]` = {"mat": {"narrow": dt, "wide": dt} | None,
+#      "labels": {column: dtype}}; module state for the duration of one `run_impl` (the judge only sees codes).
+#  * mat: the INITIAL object stores its data in the narrow dtype (float32 / float16 / int16 / int32), every operand
+#    block comes in the wide one (float64 / int64).  Cell codes carry their provenance in their parity: EVEN codes
+#    are rendered exactly representable in the narrow type (the integer itself), ODD codes are rendered NOT
+#    representable in it (float: code + 2^-30; int: code + 5e9) — a block that passes through the narrow type
+#    cannot be decoded any more.
+#  * labels: an integer label column (taxa_grp / vrnt_chrgrp / vrnt_hapgrp: codes 1..3; vrnt_phypos: codes 0..5)
+#    is stored, in the receiver and in every operand, in an unsigned or a narrow signed integer dtype; the affine
+#    rendering is chosen so that differences of consecutive labels leave the dtype's range.
+_PROFILE = {}
+_GRP_DT_AFFINE = {"uint8": (40, 100), "uint16": (1000, 40000), "uint32": (1000, 3000000000),
+                  "uint64": (1000, 2 ** 63 + 5), "int8": (100, -200), "int16": (30000, -60000),
+                  "int32": (2000000000, -4000000000)}
+_POS_DT_AFFINE = {"uint8": (40, 20), "uint16": (10000, 5000), "uint32": (100000007, 3000000000),
+                  "uint64": (1000, 2 ** 63 + 5), "int16": (12000, -30000), "int32": (800000000, -2000000000)}
+_DT_COLS = ("taxa_grp", "vrnt_chrgrp", "vrnt_hapgrp", "vrnt_phypos")
+
+
+@contextlib.contextmanager
+def profile(dt):
+    global _PROFILE
+    old = _PROFILE
+    _PROFILE = dt or {}
+    try:
+        yield
+    finally:
+        _PROFILE = old
+
+
+def _label_affine(name):
+    """(dtype, multiplier, offset) of an integer label column under the current profile"""
+    dt = (_PROFILE.get("labels") or {}).get(name)
+    if dt is not None:
+        m, b = (_POS_DT_AFFINE if name == "vrnt_phypos" else _GRP_DT_AFFINE)[dt]
+        return dt, m, b
+    if name in _INT_AFFINE:
+        m, b = _INT_AFFINE[name]
+        return "int64", m, b
+    return "int64", 1, 0
+
+
 def _name_str(prefix, c):
     """variable-length, order-preserving name of a non-negative code: prefix, number of digits, digits
     ("t15" < "t210" < "t3100": a fixed-width string dtype that truncates names must show)"""
@@ -82,20 +124,18 @@ def render_col(name, codes):
         return numpy.array([c / _FLOAT_DIV[name] + _FLOAT_TAIL for c in codes], dtype="float64")
     if name == "vrnt_mask":
         return numpy.array([bool(c) for c in codes], dtype=bool)
-    if name in _INT_AFFINE:
-        m, b = _INT_AFFINE[name]
-        return numpy.array([c * m + b for c in codes], dtype="int64")
-    return numpy.array(codes, dtype="int64")
+    dt, m, b = _label_affine(name)
+    # (numpy 2 raises OverflowError for a Python integer outside the dtype: a rendering that does not fit is a
+    #  harness error, never a silent wrap)
+    return numpy.array([c * m + b for c in codes], dtype=dt)
 
 
 def decode_int(name, x):
     x = int(x)
-    if name in _INT_AFFINE:
-        m, b = _INT_AFFINE[name]
-        if (x - b) % m != 0:
-            raise ValueError(f"label {x!r} in {name} was never created by the harness")
-        return (x - b) // m
-    return x
+    dt, m, b = _label_affine(name)
+    if (x - b) % m != 0:
+        raise ValueError(f"label {x!r} in {name} was never created by the harness")
+    return (x - b) // m
 
 
 def decode_col(name, arr):
@@ -217,8 +257,68 @@ def is_nd(cname):
     return CLASSES[cname]["ndim"] > 3
 
 
-def render_mat(cname, mat3, layout="C"):
+def _render_mat_profile(cname, mat3, role):
+    mp = _PROFILE["mat"]
+    a = numpy.array(mat3, dtype="int64")
+    if a.ndim != 3:
+        raise ValueError("mat codes must be 3-level")
+    if CLASSES[cname]["ndim"] == 2:
+        a = a[:, :, 0]
+    odd = (a % 2) != 0
+    if role == "narrow":
+        if odd.any():
+            raise ValueError("odd cell code in a narrow-dtype block (harness error)")
+        out = a.astype(mp["narrow"])
+        if not numpy.array_equal(out.astype("int64"), a):
+            raise ValueError("cell code not representable in the narrow dtype (harness error)")
+        return out
+    if numpy.dtype(mp["wide"]).kind == "f":
+        out = a.astype(mp["wide"])
+        out[odd] += _CELL_TAIL
+    else:
+        out = a.astype(mp["wide"])
+        out[odd] += _CELL_OFFSET_INT64
+    return out
+
+
+def _decode_mat_profile(arr):
+    a = numpy.asarray(arr)
+    isnan = numpy.zeros(a.shape, dtype=bool)
+    if a.dtype.kind == "f":
+        isnan = numpy.isnan(a)                  # the fill value of the square classes
+        a = numpy.where(isnan, 0.0, a)
+        integral = a == numpy.round(a)
+        low = numpy.where(integral, a, a - _CELL_TAIL)
+        if not numpy.all(low == numpy.round(low)):
+            raise ValueError("non-integral cell value: data were computed on, not moved")
+        codes = low.astype("int64")
+        tagged = ~integral
+    elif a.dtype.kind in "iu":
+        a = a.astype("int64")
+        tagged = numpy.abs(a) >= 2 ** 22
+        codes = numpy.where(tagged, a - _CELL_OFFSET_INT64, a)
+        if numpy.any(numpy.abs(codes) >= 2 ** 22):
+            raise ValueError("cell value that no block was created with (wrapped integer)")
+    else:
+        raise ValueError(f"mat has dtype {a.dtype}")
+    # provenance: an ODD code was created NOT representable in the narrow dtype, an EVEN one exactly representable
+    wrong = (tagged != ((codes % 2) != 0)) & ~isnan
+    if numpy.any(wrong):
+        bad = codes[wrong]
+        raise ValueError(f"cell(s) with code {bad.ravel()[:4].tolist()} no longer hold the value they were created "
+                         f"with (passed through a narrower dtype)")
+    codes = numpy.where(isnan, NAN_CODE, codes)
+    if codes.ndim == 2:
+        codes = codes[:, :, None]
+    if codes.ndim != 3:
+        raise ValueError(f"mat has ndim {codes.ndim}")
+    return codes.tolist()
+
+
+def render_mat(cname, mat3, layout="C", role="wide"):
     d = CLASSES[cname]
+    if _PROFILE.get("mat"):
+        return _render_mat_profile(cname, mat3, role)
     a = numpy.array(mat3, dtype="int64")
     if is_nd(cname):
         if a.ndim != d["ndim"]:
@@ -250,6 +350,8 @@ def render_mat(cname, mat3, layout="C"):
 
 def decode_mat(cname, arr):
     d = CLASSES[cname]
+    if _PROFILE.get("mat"):
+        return _decode_mat_profile(arr)
     a = numpy.asarray(arr)
     if d["dtype"] == "float64":
         codes = numpy.where(numpy.isnan(a), float(NAN_CODE), a)
@@ -303,7 +405,7 @@ def label_kwargs(cname, st, layout="C"):
     return kw
 
 
-def build(cname, st, layout="C"):
+def build(cname, st, layout="C", role="wide"):
     """state codes -> a fresh object of the real class (group metadata assigned when the state has them).
     `layout`: memory layout of the arrays handed to the constructor ("C", "F" = Fortran-ordered data,
     "strided" = non-contiguous views for the data and for every label array)"""
@@ -311,7 +413,7 @@ def build(cname, st, layout="C"):
     if CLASSES[cname].get("bv"):
         obj = cls.from_numpy(render_mat(cname, st["mat"], layout), **label_kwargs(cname, st, layout))
     else:
-        obj = cls(render_mat(cname, st["mat"], layout), **label_kwargs(cname, st, layout))
+        obj = cls(render_mat(cname, st["mat"], layout, role), **label_kwargs(cname, st, layout))
     for k in ("taxa", "vrnt"):
         g = st[k].get("grp") if CLASSES[cname][k] else None
         if g:
@@ -650,7 +752,7 @@ def run_history(case):
     cname = case["cls"]
     rn = Runner(cname)
     heap = Heap(cname)
-    heap.add(build(cname, case["init"], case.get("layout", "C")))
+    heap.add(build(cname, case["init"], case.get("layout", "C"), role="narrow"))
     # history of length 0: the object must carry exactly the data and labels it was created with
     created = heap.snaps[0]
     created_ok = (created["mat"] == case["init"]["mat"]
@@ -756,6 +858,8 @@ class Gen:
         self.next_cell = rng.randrange(0, 200)
         self.tiny = tiny
         self.allow_pad = True
+        self.matprof = False        # dtype profile on the data: init cells get EVEN codes, operand cells ODD ones
+        self.no_decoy = False       # narrow label dtypes: no "other labels" operand objects (decoy codes do not fit)
         self.ext_ins = CLASSES[cname]["ndim"] <= 3      # mask / unsorted positions of numpy.insert (Model/LabelMatX)
         r = rng.random()
         # presence pattern of the optional label columns (fixed for the whole history)
@@ -771,13 +875,16 @@ class Gen:
             else:
                 self.present[k] = [False] * n
 
-    def cells(self, shape):
+    def cells(self, shape, odd=False):
         out = numpy.zeros(shape, dtype="int64")
         it = numpy.nditer(out, flags=["multi_index"], op_flags=["writeonly"])
         for x in it:
             c = self.next_cell
             self.next_cell += 1
-            x[...] = ((c + 128) % 256) - 128 if self.d["dtype"] == "int8" else c
+            if self.matprof:
+                x[...] = 2 * c + (1 if odd else 0)
+            else:
+                x[...] = ((c + 128) % 256) - 128 if self.d["dtype"] == "int8" else c
         return out.tolist()
 
     def col_codes(self, k, ci, q):
@@ -827,7 +934,7 @@ class Gen:
             st[k] = {"cols": self.bundle_cols(k, ln[k]) if d[k] else [None] * len(COLS[k]), "grp": None}
         # one entry per live receiver object (the initial one; every result of a non-mutating operation)
         self.objs = [{"len": {k: (shape[d[k][0]] if d[k] else 0) for k in KINDS},
-                      "has_none": {k: False for k in KINDS}}]
+                      "has_none": {k: False for k in KINDS}, "narrow": self.matprof}]
         return st
 
     def block_shape(self, meta, k, q, first_axis_only=False):
@@ -848,7 +955,7 @@ class Gen:
             if cols[ci] is not None and self.allow_pad and self.rng.random() < 0.2:
                 cols[ci] = None
                 meta["has_none"][k] = True
-        return {"mat": self.cells(self.block_shape(meta, k, q, first_axis_only=rows)), "cols": cols}
+        return {"mat": self.cells(self.block_shape(meta, k, q, first_axis_only=rows), odd=True), "cols": cols}
 
     def rand_index(self, n):
         i = self.rng.randrange(n)
@@ -935,7 +1042,7 @@ class Gen:
                 else:
                     st["form"] = "obj"
             if st["form"] == "obj_kw":
-                st["override"] = ov
+                st["override"] = ["none" if (x == "other" and self.no_decoy) else x for x in ov]
         st["raw"] = st["form"] == "raw"
 
     def step(self, only_kind=None, names=None, force_rid=None):
@@ -963,6 +1070,10 @@ class Gen:
             names = [x for x in names if x not in ("adjoin", "append")]      # keep n ** r small
         if only_names:
             names = [x for x in only_names if x in names]
+        if self.matprof and meta.get("narrow"):
+            # numpy.insert casts the inserted block to the receiver's dtype (numpy semantics, see ASSUMPTIONS): a wide
+            # block is inserted only into a matrix that an adjoin / append / concat has already promoted
+            names = [x for x in names if x not in ("insert", "incorp")] or ["select"]
         name = rng.choice(names)
         if meta["has_none"][k] and k == "taxa" and name == "group":
             name = "sort"                     # group_taxa sorts on the names: None vs str cannot be compared
@@ -1048,7 +1159,8 @@ class Gen:
             meta["has_none"][k] = none_before
             new_len = n + sum(qs)
         if name in ("select", "delete", "adjoin", "insert", "concat"):
-            child = {"len": dict(meta["len"]), "has_none": dict(meta["has_none"])}
+            child = {"len": dict(meta["len"]), "has_none": dict(meta["has_none"]),
+                     "narrow": bool(meta.get("narrow")) and name in ("select", "delete")}
             if new_len is not None:
                 child["len"][k] = new_len
             if st.pop("_padded", False):
@@ -1058,6 +1170,8 @@ class Gen:
             st.pop("_padded", None)
             if new_len is not None:
                 meta["len"][k] = new_len
+            if name in ("append", "incorp"):
+                meta["narrow"] = False
         return st
 
 
@@ -1127,6 +1241,68 @@ def gen_alias(rng):
     return {"kind": "hist", "cls": cname, "init": init, "steps": steps, "alias": True}
 
 
+DT_MAT = {"float64": [("float32", "float64"), ("float32", "float64"), ("float16", "float64"), ("int16", "float64"),
+                      ("int16", "int64"), ("int32", "int64")],
+          "int64": [("int16", "int64"), ("int32", "int64"), ("int16", "int64"), ("int32", "float64")]}
+DT_MAT_CLASSES = ["DenseTaxaTraitMatrix", "DenseTaxaTraitMatrix", "DenseTraitMatrix", "DenseTaxaMatrix",
+                  "DenseVariantMatrix", "DenseTaxaVariantMatrix", "DensePhasedTaxaVariantMatrix"]
+DT_LABEL_CLASSES = ["DensePhasedGenotypeMatrix", "DenseGenotypeMatrix", "DenseTaxaVariantMatrix",
+                    "DensePhasedTaxaVariantMatrix", "DenseTaxaTraitMatrix", "DenseTaxaTraitMatrix", "DenseTaxaMatrix",
+                    "DenseVariantMatrix", "DenseBreedingValueMatrix", "DenseSquareTaxaMatrix",
+                    "DenseSquareTaxaTraitMatrix"]       # (the coancestry classes document int64 group arrays only)
+_DT_COL_AT = {"taxa_grp": ("taxa", 1), "vrnt_chrgrp": ("vrnt", 0), "vrnt_phypos": ("vrnt", 1), "vrnt_hapgrp": ("vrnt", 5)}
+
+
+def gen_dtype(rng):
+    """histories whose arrays are NOT all in the documented default dtypes (see `_PROFILE`):
+      mat    : receiver stored in a narrower dtype than the blocks adjoined / appended / concatenated to it
+               (float32 / float16 / int16 / int32 against float64 / int64; int16 against float64 = another kind);
+      labels : integer label columns (groups, positions) stored as uint8 / uint16 / uint32 / uint64 / int8 / int16 /
+               int32, rendered so that consecutive labels differ by more than the signed range of the dtype"""
+    r = rng.random()
+    dt = {}
+    if r < 0.45:
+        cname = rng.choice(DT_MAT_CLASSES)
+        nar, wide = rng.choice(DT_MAT[CLASSES[cname]["dtype"]])
+        dt["mat"] = {"narrow": nar, "wide": wide}
+    else:
+        cname = rng.choice(DT_LABEL_CLASSES)
+    g = Gen(rng, cname, dup_labels=rng.random() < 0.3)
+    g.matprof = "mat" in dt
+    focus = None
+    if r >= 0.3:
+        labels = {}
+        cands = [n for n in _DT_COLS if CLASSES[cname][_DT_COL_AT[n][0]] and _DT_COL_AT[n][0] in op_kinds_of(cname)]
+        if not cands:
+            cands = [n for n in _DT_COLS if CLASSES[cname][_DT_COL_AT[n][0]]]
+        for n in cands:
+            if rng.random() < (0.8 if n in ("taxa_grp", "vrnt_chrgrp") else 0.4):
+                table = _POS_DT_AFFINE if n == "vrnt_phypos" else _GRP_DT_AFFINE
+                labels[n] = rng.choice(sorted(table) + ["uint8", "uint16"])
+                k, ci = _DT_COL_AT[n]
+                g.present[k][ci] = True
+        if labels:
+            dt["labels"] = labels
+            g.no_decoy = True
+            grp = [n for n in labels if n in ("taxa_grp", "vrnt_chrgrp")]
+            if grp:
+                focus = _DT_COL_AT[rng.choice(grp)][0]
+    init = g.init_state()
+    steps = []
+    for _ in range(rng.randint(1, 7)):
+        x = rng.random()
+        if g.matprof and x < 0.5:
+            s = g.step(names=["adjoin", "append", "concat", "adjoin", "append"])
+        elif focus is not None and focus in op_kinds_of(cname) and x < 0.5:
+            s = g.step(only_kind=focus, names=["group", "group", "sort", "is_grouped", "reorder"])
+        else:
+            s = g.step()
+        steps.append(s)
+        if _trigger(cname, s, present=g.present) is not None:
+            break
+    return {"kind": "hist", "cls": cname, "init": init, "steps": steps, "dt": dt}
+
+
 def gen_history(rng, cname=None, nsteps=None, dup=None, tiny=False):
     if cname is None:
         cname = rng.choice(CLASS_MIX)
@@ -1166,6 +1342,11 @@ def _trigger(cname, step, pre=None, present=None):
     if is_square_k(cname, k) and name in ("insert", "incorp", "concat"):
         return {"site": "square_insert_incorp_concat" if k == "taxa" else "square_trait_insert_incorp_concat",
                 "cond": "single_axis_edit"}
+    # D71: a block of a WIDER dtype stored into a receiver that is still in its narrow storage dtype by an operation
+    # that keeps the receiver's dtype (numpy.insert; the pre-allocated result of the square adjoin / append)
+    if step.get("narrow_recv") and (name in ("insert", "incorp")
+                                    or (is_square_k(cname, k) and name in ("adjoin", "append"))):
+        return {"site": "store_into_receiver_dtype", "cond": "wider_block"}
     return None
 
 
@@ -1259,11 +1440,27 @@ def gen_gt(rng):
             "invert": rng.random() < 0.4, "init": init, "prep": prep, "after": after}
 
 # ------------------------------------------------------------------------------------------------
+_IDT = ["int8", "int16", "int32", "int64", "uint8", "uint16", "uint32", "uint64"]
+
+
+def _idt_values(rng, dt, n):
+    ii = numpy.iinfo(dt)
+    pool = [int(ii.min), int(ii.max), 0, 1, int(ii.max) - 1, int(ii.min) + 1, int(ii.max) // 2 + 1, 70000, -40000, 255, 256,
+            -129, 32768, 2 ** 31, 2 ** 32 + 5, 2 ** 63 + 5]
+    pool = [x for x in pool if ii.min <= x <= ii.max]
+    return [rng.choice(pool) if rng.random() < 0.7 else rng.randint(int(ii.min), int(ii.max)) for _ in range(n)]
+
+
 def np_case(rng):
     """conformance of the model's numpy-like helpers against numpy itself"""
     r = rng.random()
     n = rng.randint(1, 7)
     l = [rng.randrange(100) for _ in range(n)]
+    if rng.random() < 0.15:
+        # storage dtypes (Model/LabelDtype.lean): numpy.append promotes, numpy.insert casts to the receiver's dtype
+        da, db = rng.choice(_IDT), rng.choice(_IDT)
+        return {"kind": "np", "fn": rng.choice(["dt_append", "dt_store"]), "da": da, "db": db,
+                "l": _idt_values(rng, da, rng.randint(0, 3)), "v": _idt_values(rng, db, rng.randint(1, 3))}
     if r < 0.3:
         sl = [rng.choice([None, 0, 1, 2, -1, -2, -9, 9]), rng.choice([None, 0, 1, 3, -1, -3, 9, -9]),
               rng.choice([None, 1, 2, 3, -1, -2])]
@@ -1325,6 +1522,13 @@ def np_impl(case):
             d = numpy.insert(a.reshape(-1, 1), py_obj(case["obj"]), v.reshape(-1, 1), axis=0)
             lab = numpy.insert(a, py_obj(case["obj"]), v, axis=0)
             return {"l": {"data": [int(x) for x in d[:, 0]], "labels": [int(x) for x in lab]}}
+        if fn in ("dt_append", "dt_store"):
+            a = numpy.array(case["l"], dtype=case["da"])
+            v = numpy.array(case["v"], dtype=case["db"])
+            r = numpy.append(a, v, axis=0) if fn == "dt_append" else numpy.insert(a, len(a), v, axis=0)
+            if r.dtype.kind not in "iu":
+                return {"dtype": None}
+            return {"dtype": r.dtype.name, "l": [int(x) for x in r]}
         if fn == "insert3":
             r = numpy.insert(numpy.array(case["m"], dtype="int64"), py_obj(case["obj"]),
                              numpy.array(case["v"], dtype="int64"), axis=case["axis"])
@@ -1364,12 +1568,23 @@ class C03(Prop):
             "deliberately duplicated names, small group / position ranges (ties), random presence pattern of the optional "
             "label columns, shapes down to 1, a few histories with one axis of 130-300 (rarely 1030 / 1100) entries.  Values "
             "are rendered so that a narrowing cast shows: float64 cells = code + 2^-30, float labels = code/8 (/64) + 2^-40, "
-            "int64 cells and integer labels offset by 3e9 .. 7e9, names of varying length.  Growing a square matrix must "
+            "int64 cells and integer labels offset by 3e9 .. 7e9, names of varying length.  DTYPE-PROFILE histories (8 %): (a) the "
+            "initial object stores its data as float32 / float16 / int16 / int32 while every block adjoined / appended / "
+            "concatenated comes as float64 / int64 (also int16 against float64), cell codes carrying their provenance in "
+            "their parity — EVEN = exactly representable in the narrow type, ODD = rendered NOT representable in it "
+            "(code + 2^-30, code + 5e9), so a block that passes through the narrow type cannot be decoded; (b) the integer "
+            "label columns taxa_grp / vrnt_chrgrp / vrnt_hapgrp / vrnt_phypos stored, in receiver and operands alike, as "
+            "uint8 / uint16 / uint32 / uint64 (above 2^63) / int8 / int16 / int32, interleaved, rendered so that "
+            "differences of consecutive labels leave the signed range of the dtype.  Growing a square matrix must "
             "put the fill value into the cross blocks ONLY (fill-count balance).  Non-trivial = a history "
             "with >= 2 executed steps of which at least one permutes or edits an axis of length >= 2")
     TRUSTED = ["numpy.take/delete/insert/append/concatenate/lexsort/unique as modelled in Model/LabelMat.lean, "
                "LabelMatN.lean, LabelMatX.lean (index normalisers, slices, the scalar-position moveaxis/broadcast rule, the "
                "mask and unsorted-list forms of numpy.insert are differentially tested against numpy on every run: kind `np`)",
+               "numpy.result_type and the two's-complement cast of the eight integer dtypes as modelled in "
+               "Model/LabelDtype.lean (promote / wrap; numpy.append and numpy.insert on 1-D integer arrays of every dtype "
+               "pair, boundary values included, are differentially tested against it on every run: kind `np`, fns "
+               "dt_append / dt_store); the float dtypes (float16 / float32 / float64 rounding) are not modelled",
                "copy.deepcopy returns an object graph that shares no mutable state with its argument (used only to run "
                "the counterpart forms — mutating vs non-mutating, generic vs specific — on an identical receiver; the "
                "history itself runs on the real objects, never on copies)",
@@ -1402,9 +1617,25 @@ class C03(Prop):
                    "the property states",
                    "progeny covariance matrices (square taxa AND square trait axes, DenseSquareTaxaSquareTraitMatrix: 4-D / 5-D with two "
                    "square bundles, outside both the 3-level and the N-D model) are not exercised",
-                   "label arrays are handed over in the dtypes the constructors document (int64 / float64 / object / bool); an "
-                   "integer label array of a narrower dtype in the receiver makes numpy.insert cast the inserted labels to it "
-                   "(silent wrap-around, numpy semantics) — not driven",
+                   "dtypes: outside the dtype-profile histories every array is in the dtype the constructors document "
+                   "(int8 / int64 / float64 / object / bool).  In a dtype-profile history an integer label column has ONE "
+                   "dtype for the receiver and all operands (mixing, e.g. uint64 with int64, makes numpy.append return "
+                   "float64 labels — not driven); a data block of a WIDER dtype than the receiver is adjoined / appended / "
+                   "concatenated (numpy.append / concatenate promote, every cell is kept exactly) but is inserted / "
+                   "incorporated (and, for the square classes, adjoined / appended) only in the two corpus witnesses of "
+                   "finding D71: those operations keep the receiver's dtype and cast the block to it (silent rounding / "
+                   "wrap-around); the generator never hands a wider block to them while the receiver is still narrow, and "
+                   "the same cast applied by numpy.insert to inserted LABELS of a wider dtype is not driven.  The coancestry "
+                   "classes accept int64 group arrays only and take no label profile; the square classes, the breeding-value "
+                   "classes and the genotype classes (int8 by contract) take no data profile",
+                   "the label-matrix model has no dtype: it works on the integer codes.  That a dtype-profile history is "
+                   "in correspondence with it rests on the per-dtype renderings being injective and monotone "
+                   "(harness _GRP_DT_AFFINE / _POS_DT_AFFINE, positive multipliers) and on decode(render(code)) = code.  "
+                   "The meeting of two INTEGER storage dtypes is modelled separately (Model/LabelDtype.lean: "
+                   "append_store_keeps_cells, store_into_keeps_cells_partial, store_into_narrows_counterexample = finding "
+                   "D71, store_into_repaired_keeps_cells) and is tied to numpy by the `np` conformance cases, not to the "
+                   "histories; float rounding and the label-dtype classes (unsigned / narrow signed group labels) are "
+                   "Spec / correspondence only",
                    "C03_REPAIRED=1 switches to repair-validation mode (tree with patches/C03_D14.diff and C03_D14b.diff "
                    "applied): block-shaped operands for the square insert / incorp / concat, the repaired model "
                    "of Model/LabelMatRepair.lean, no known finding consulted; never set in a normal run"]
@@ -1415,7 +1646,7 @@ class C03(Prop):
         cases = self._corpus()
         if REPAIRED:
             # the witnesses of D14 / D14b hand ROW-shaped operands to the single-axis methods the repair replaces
-            cases = [c for c in cases if c.get("finding") not in ("D14", "D14b")]
+            cases = [c for c in cases if c.get("finding") not in ("D14", "D14b", "D71")]
             # block-shaped operands for the repaired square insert / incorp / concat
             sq = {"mat": [[[0], [1], [2]], [[3], [4], [5]], [[6], [7], [8]]],
                   "taxa": {"cols": [[0, 1, 2], [1, 2, 1]], "grp": None},
@@ -1757,6 +1988,9 @@ class C03(Prop):
             # D17b (fixed): a 0-d ndarray position on a non-leading axis was not wrapped (fix 74ad0b65 tested int / numpy.integer only)
             {"kind": "hist", "cls": P, "init": pinit, "regression": "D17b",
              "steps": [S(name="insert", kind="taxa", obj={"int0d": 1}, operand=opd_t2, axis=1, alt_axis=-2, form="raw")]},
+            {"kind": "hist", "cls": G, "init": ginit, "regression": "D17b",
+             "steps": [S(name="incorp", kind="vrnt", obj={"int0d": 1}, axis=1, alt_axis=-1, form="raw",
+                         operand={"mat": [[[50], [51]], [[60], [61]]], "cols": v9([1, 1], [7, 8], [50, 51])})]},
             # ... on the leading axis the scalar rule is the block insert: fine
             {"kind": "hist", "cls": G, "init": ginit,
              "steps": [S(name="insert", kind="taxa", obj={"int0d": 1}, form="raw",
@@ -1777,6 +2011,88 @@ class C03(Prop):
             {"kind": "gt", "proto": "unphased", "invert": False, "init": pinit,
              "prep": [S(name="group", kind="vrnt", axis=2, alt_axis=2)],
              "after": [S(target="out", name="sort", kind="taxa", keys=None), S(target="in", name="reorder", kind="vrnt")]},
+            # ---- round 5: arrays that are NOT in the default dtypes.
+            #  (a) receiver stored as float32 / int16 / int32, blocks adjoined / appended / concatenated as float64 /
+            #      int64 whose values (ODD codes) are not representable in the narrow type: numpy.append promotes
+            {"kind": "hist", "cls": "DenseTaxaTraitMatrix", "dt": {"mat": {"narrow": "float32", "wide": "float64"}},
+             "init": {"mat": [[[0], [2]], [[4], [6]], [[8], [10]]], "taxa": {"cols": [[2, 0, 1], [2, 1, 2]], "grp": None},
+                      "vrnt": empty_bundle("vrnt"), "trait": {"cols": [[5, 3]], "grp": None}},
+             "steps": [S(name="adjoin", kind="trait", axis=1, alt_axis=-1, on=0, form="raw",
+                         operand={"mat": [[[11]], [[13]], [[15]]], "cols": [[9]]}),
+                       S(name="append", kind="trait", axis=1, alt_axis=1, on=0, form="obj",
+                         operand={"mat": [[[21], [23]], [[25], [27]], [[29], [31]]], "cols": [[7, 8]]}),
+                       S(name="adjoin", kind="taxa", on=1, form="raw",
+                         operand={"mat": [[[41], [43], [45]]], "cols": [[9], [1]]}),
+                       S(name="group", kind="taxa", on=0),
+                       S(name="concat", kind="taxa", on=0,
+                         others=[{"mat": [[[51], [53], [55], [57]]], "cols": [[10], [3]]}]),
+                       S(name="insert", kind="trait", obj={"list": [1]}, axis=1, alt_axis=1, on=0, form="raw",
+                         operand={"mat": [[[61]], [[63]], [[65]]], "cols": [[11]]})]},
+            {"kind": "hist", "cls": "DenseTraitMatrix", "dt": {"mat": {"narrow": "int16", "wide": "int64"}},
+             "init": {"mat": [[[0], [2]], [[4], [6]]], "taxa": empty_bundle("taxa"), "vrnt": empty_bundle("vrnt"),
+                      "trait": {"cols": [[1, 0]], "grp": None}},
+             "steps": [S(name="adjoin", kind="trait", form="obj", on=0, operand={"mat": [[[11], [13]]], "cols": [[7]]}),
+                       S(name="append", kind="trait", form="raw", on=0, generic=True,
+                         operand={"mat": [[[21], [23]], [[25], [27]]], "cols": [[8, 9]]}),
+                       S(name="sort", kind="trait", keys=None, on=0)]},
+            {"kind": "hist", "cls": "DenseTaxaVariantMatrix", "dt": {"mat": {"narrow": "int32", "wide": "int64"}},
+             "init": {"mat": [[[0], [2], [4]], [[6], [8], [10]]], "taxa": {"cols": [[1, 0], [2, 1]], "grp": None},
+                      "vrnt": {"cols": v9([2, 1, 2], [7, 5, 3], [0, 1, 2]), "grp": None}, "trait": empty_bundle("trait")},
+             "steps": [S(name="adjoin", kind="vrnt", axis=1, alt_axis=-1, form="raw", on=0,
+                         operand={"mat": [[[11]], [[13]]], "cols": v9([1], [4], [50])}),
+                       S(name="append", kind="taxa", form="obj", on=0,
+                         operand={"mat": [[[21], [23], [25]]], "cols": [[5], [1]]}),
+                       S(name="group", kind="vrnt", axis=1, alt_axis=1, on=0)]},
+            {"kind": "hist", "cls": "DenseTaxaMatrix", "dt": {"mat": {"narrow": "int16", "wide": "float64"}},
+             "init": {"mat": [[[0], [2]], [[4], [6]], [[8], [10]]], "taxa": {"cols": [[0, 1, 2], [1, 2, 1]], "grp": None},
+                      "vrnt": empty_bundle("vrnt"), "trait": empty_bundle("trait")},
+             "steps": [S(name="adjoin", kind="taxa", form="raw", on=0, operand={"mat": [[[11], [13]]], "cols": [[7], [3]]}),
+                       S(name="append", kind="taxa", form="obj", on=0, operand={"mat": [[[21], [23]]], "cols": [[8], [1]]})]},
+            #  D71: the operations that KEEP the receiver's storage dtype narrow a wider block (rounding / wrap-around):
+            #  numpy.insert in insert_* / incorp_* of every class, the pre-allocated result of the square adjoin / append
+            {"kind": "hist", "cls": "DenseSquareTaxaMatrix", "finding": "D71",
+             "dt": {"mat": {"narrow": "float32", "wide": "float64"}},
+             "init": {"mat": [[[0], [2], [4]], [[6], [8], [10]], [[12], [14], [16]]],
+                      "taxa": {"cols": [[0, 1, 2], [1, 2, 1]], "grp": None},
+                      "vrnt": empty_bundle("vrnt"), "trait": empty_bundle("trait")},
+             "steps": [S(name="adjoin", kind="taxa", form="raw", on=0, narrow_recv=True,
+                         operand={"mat": [[[21]]], "cols": [[9], [3]]})]},
+            {"kind": "hist", "cls": "DenseTaxaTraitMatrix", "finding": "D71",
+             "dt": {"mat": {"narrow": "int16", "wide": "int64"}},
+             "init": {"mat": [[[0], [2]], [[4], [6]], [[8], [10]]], "taxa": {"cols": [[2, 0, 1], [2, 1, 2]], "grp": None},
+                      "vrnt": empty_bundle("vrnt"), "trait": {"cols": [[5, 3]], "grp": None}},
+             "steps": [S(name="incorp", kind="taxa", obj={"list": [1]}, form="raw", on=0, narrow_recv=True,
+                         operand={"mat": [[[21], [23]]], "cols": [[9], [3]]})]},
+            #  (b) group / position labels stored as unsigned or narrow signed integers, interleaved, rendered so that
+            #      differences of consecutive labels leave the signed range of the dtype
+            {"kind": "hist", "cls": "DenseTaxaTraitMatrix", "dt": {"labels": {"taxa_grp": "uint8"}},
+             "init": {"mat": [[[0], [1]], [[2], [3]], [[4], [5]], [[6], [7]], [[8], [9]]],
+                      "taxa": {"cols": [[4, 3, 2, 1, 0], [2, 1, 2, 1, 3]], "grp": None},
+                      "vrnt": empty_bundle("vrnt"), "trait": {"cols": [[5, 3]], "grp": None}},
+             "steps": [S(name="group", kind="taxa", on=0),
+                       S(name="append", kind="taxa", form="raw", on=0,
+                         operand={"mat": [[[20], [21]], [[22], [23]]], "cols": [[6, 5], [1, 2]]}),
+                       S(name="remove", kind="taxa", obj={"list": [4]}, on=0),
+                       S(name="group", kind="taxa", generic=True, on=0),
+                       S(name="insert", kind="taxa", obj={"list": [1]}, form="obj", on=0,
+                         operand={"mat": [[[30], [31]]], "cols": [[7], [3]]})]},
+            {"kind": "hist", "cls": "DenseTaxaMatrix", "dt": {"labels": {"taxa_grp": "int8"}},
+             "init": {"mat": [[[0], [1]], [[2], [3]], [[4], [5]], [[6], [7]], [[8], [9]]],
+                      "taxa": {"cols": [[4, 3, 2, 1, 0], [3, 1, 2, 3, 1]], "grp": None},
+                      "vrnt": empty_bundle("vrnt"), "trait": empty_bundle("trait")},
+             "steps": [S(name="group", kind="taxa", on=0), S(name="select", kind="taxa", indices=[4, 0, 2], on=0)]},
+            {"kind": "hist", "cls": P, "dt": {"labels": {"taxa_grp": "uint64", "vrnt_chrgrp": "uint16", "vrnt_phypos": "uint8"}},
+             "init": dict(pinit, taxa={"cols": [[3, 2, 1, 0], [3, 1, 3, 1]], "grp": None},
+                          vrnt={"cols": v9([2, 1, 2], [1, 5, 0], [0, 1, 2]), "grp": None}),
+             "steps": [S(name="group", kind="taxa", axis=1, alt_axis=-2, on=0),
+                       S(name="group", kind="vrnt", axis=2, alt_axis=2, on=0),
+                       S(name="delete", kind="vrnt", obj={"int": 0}, axis=2, alt_axis=-1, on=0),
+                       S(name="is_grouped", kind="vrnt", axis=2, alt_axis=2, on=1)]},
+            {"kind": "hist", "cls": G, "dt": {"labels": {"vrnt_chrgrp": "int16", "vrnt_phypos": "int16", "vrnt_hapgrp": "uint32"}},
+             "init": dict(ginit, vrnt={"cols": v9([3, 1, 3], [5, 0, 2], [0, 1, 2], None, None, [2, 3, 1]), "grp": None}),
+             "steps": [S(name="group", kind="vrnt", axis=1, alt_axis=-1, on=0),
+                       S(name="reorder", kind="vrnt", indices=[1, 2, 0], axis=1, alt_axis=1, on=0),
+                       S(name="sort", kind="vrnt", keys=None, axis=1, alt_axis=1, generic=True, on=0)]},
             # square classes: block-diagonal adjoin / append, both axes selected / deleted / sorted
             {"kind": "hist", "cls": "DenseMolecularCoancestryMatrix", "init": sq,
              "steps": [S(name="adjoin", kind="taxa", operand={"mat": [[[70]]], "cols": [[9], [2]]}, raw=True),
@@ -1797,6 +2113,8 @@ class C03(Prop):
                 out.append(gen_big(rng))
             elif r < 0.27:
                 out.append(gen_alias(rng))
+            elif r < 0.35:
+                out.append(gen_dtype(rng))
             else:
                 out.append(gen_history(rng))
         return out
@@ -1867,7 +2185,8 @@ class C03(Prop):
             return np_impl(case)
         if case["kind"] == "gt":
             return run_gt(case)
-        return run_history(case)
+        with profile(case.get("dt")):
+            return run_history(case)
 
     # ------------------------------------------------------------------ model requests
     @staticmethod
@@ -1887,7 +2206,7 @@ class C03(Prop):
     def requests(self, case, obs):
         if case["kind"] == "np":
             r = {"op": "c03.np", "fn": case["fn"]}
-            r.update({k: case[k] for k in ("n", "slice", "l", "v", "obj", "axis", "m") if k in case})
+            r.update({k: case[k] for k in ("n", "slice", "l", "v", "obj", "axis", "m", "da", "db") if k in case})
             return [r]
         if case["kind"] == "gt":
             _, _, outc, masked, unphase = GT_PROTOS[case["proto"]]
@@ -2216,6 +2535,17 @@ class C03(Prop):
             c = dict(case)
             c.pop("layout")
             yield c
+        dt = case.get("dt") or {}
+        for part in ("mat", "labels"):
+            if dt.get(part):
+                c = dict(case)
+                c["dt"] = {kk: vv for kk, vv in dt.items() if kk != part}
+                yield c
+        for n in sorted(dt.get("labels") or {}):
+            if len(dt["labels"]) > 1:
+                c = dict(case)
+                c["dt"] = dict(dt, labels={kk: vv for kk, vv in dt["labels"].items() if kk != n})
+                yield c
 
     # ------------------------------------------------------------------ self-test mutants
     def mutants(self):
@@ -2592,7 +2922,56 @@ class C03(Prop):
                 raise TypeError("keys must be a tuple")
             return DenseTaxaMatrix_lexsort_taxa(self, keys, **kwargs)
 
+        # ---- round 5: arrays outside the default dtypes
+        DenseTraitMatrix_adjoin_trait = DenseTraitMatrix.__dict__["adjoin_trait"]
+        DenseTaxaMatrix_concat_taxa = DenseTaxaMatrix.__dict__["concat_taxa"].__func__
+        DenseTaxaMatrix_group_taxa = DenseTaxaMatrix.__dict__["group_taxa"]
+        DenseTaxaMatrix_sort_taxa = DenseTaxaMatrix.__dict__["sort_taxa"]
+
+        def adjoin_trait_result_keeps_storage_dtype(self, values, trait=None, **kwargs):
+            out = DenseTraitMatrix_adjoin_trait(self, values, trait=trait, **kwargs)
+            out._mat = out._mat.astype(self._mat.dtype)          # a wider block is narrowed (rounded / wrapped)
+            return out
+
+        def concat_taxa_result_in_dtype_of_first(cls, mats, **kwargs):
+            out = DenseTaxaMatrix_concat_taxa(cls, mats, **kwargs)
+            out._mat = out._mat.astype(mats[0]._mat.dtype)
+            return out
+
+        def group_taxa_sort_skipped_on_wrapped_differences(self, **kwargs):
+            if self._taxa_grp is not None and not numpy.any(numpy.diff(self._taxa_grp) < 0):
+                # "already in ascending order": unsigned / narrow signed differences wrap around
+                u = numpy.unique(self._taxa_grp, return_index=True, return_counts=True)
+                self._taxa_grp_name, self._taxa_grp_stix, self._taxa_grp_len = u
+                self._taxa_grp_spix = self._taxa_grp_stix + self._taxa_grp_len
+                return
+            DenseTaxaMatrix_group_taxa(self, **kwargs)
+
+        def group_vrnt_sort_skipped_on_wrapped_differences(self, **kwargs):
+            if self._vrnt_chrgrp is not None and not numpy.any(numpy.diff(self._vrnt_chrgrp) < 0):
+                u = numpy.unique(self._vrnt_chrgrp, return_index=True, return_counts=True)
+                self._vrnt_chrgrp_name, self._vrnt_chrgrp_stix, self._vrnt_chrgrp_len = u
+                self._vrnt_chrgrp_spix = self._vrnt_chrgrp_stix + self._vrnt_chrgrp_len
+                return
+            DenseVariantMatrix_group_vrnt(self, **kwargs)
+
+        def sort_taxa_groups_through_float64(self, keys=None, **kwargs):
+            DenseTaxaMatrix_sort_taxa(self, keys, **kwargs)
+            if self._taxa_grp is not None:
+                # "labels are numbers": exact for every int64 the harness renders (< 2^53), not for uint64 above 2^63
+                self._taxa_grp = self._taxa_grp.astype("float64").astype(self._taxa_grp.dtype)
+
         return [
+            ("adjoin_trait_wider_block_narrowed_to_storage_dtype",
+             lambda: patch(DenseTraitMatrix, "adjoin_trait", adjoin_trait_result_keeps_storage_dtype)),
+            ("concat_taxa_wider_blocks_narrowed_to_dtype_of_first",
+             lambda: patch(DenseTaxaMatrix, "concat_taxa", classmethod(concat_taxa_result_in_dtype_of_first))),
+            ("group_taxa_sort_skipped_when_wrapped_label_differences_nonnegative",
+             lambda: patch(DenseTaxaMatrix, "group_taxa", group_taxa_sort_skipped_on_wrapped_differences)),
+            ("group_vrnt_sort_skipped_when_wrapped_label_differences_nonnegative",
+             lambda: patch(DenseVariantMatrix, "group_vrnt", group_vrnt_sort_skipped_on_wrapped_differences)),
+            ("sort_taxa_group_labels_through_float64",
+             lambda: patch(DenseTaxaMatrix, "sort_taxa", sort_taxa_groups_through_float64)),
             ("adjoin_taxa_data_through_float32_or_int32",
              lambda: patch(DenseTaxaMatrix, "adjoin_taxa", adjoin_taxa_data_through_float32)),
             ("insert_vrnt_map_positions_through_float32",
